@@ -3,6 +3,7 @@ package props
 import (
 	"fmt"
 	"go/token"
+	"strings"
 
 	"golang.org/x/tools/go/ssa"
 
@@ -21,6 +22,51 @@ func init() {
 }
 
 func runC40(c *eng.Ctx) {
+
+	// CODEC-filename: the name of the blob travels to the replicas as the filename parameter of the multipart
+	// Content-Disposition header; the receiving side (mime.ParseMediaType) undoes exactly two escapes in a quoted
+	// string: \\ and \". The sender must produce exactly those (the repo's Replacer) between plain quotes, not Go
+	// syntax (%q), or a name with other special bytes is stored differently on the replica.
+	if fn := c.NeedFunc("weed/operation", "upload_content"); fn != nil {
+		n := 0
+		for _, in := range eng.Find(fn, eng.PlainCallTo("textproto.MIMEHeader).Set")) {
+			call := in.(*ssa.Call)
+			if k, ok := eng.ConstString(call.Call.Args[1]); !ok || k != "Content-Disposition" {
+				continue
+			}
+			n++
+			sp, isSp := eng.Unwrap(call.Call.Args[2]).(*ssa.Call)
+			okFmt, okEsc, why := false, false, ""
+			if isSp && eng.CalleeIs(sp, "fmt.Sprintf") {
+				format, _ := eng.ConstString(sp.Call.Args[0])
+				okFmt = strings.Contains(format, `filename="%s"`) && !strings.Contains(format, "%q") && !strings.Contains(format, "%v") && !strings.Contains(format, "%x")
+				for _, a := range eng.VarargValues(sp.Call.Args[1]) {
+					if mi, ok := a.(*ssa.MakeInterface); ok {
+						a = mi.X
+					}
+					if !eng.Mentions(a, 6, func(v ssa.Value) bool { return eng.IsParam(v, "filename") }) {
+						continue
+					}
+					rc, isCall := eng.Unwrap(a).(*ssa.Call)
+					if isCall && eng.CalleeIs(rc, "strings.Replacer).Replace") && eng.IsParam(eng.Unwrap(rc.Call.Args[1]), "filename") {
+						okEsc = replacerPairs(c.P, rc.Call.Args[0]) == `\|\\|"|\"`
+						if !okEsc {
+							why = "the replacer does not escape exactly backslash and double quote: " + replacerPairs(c.P, rc.Call.Args[0])
+						}
+					} else {
+						why = "the file name reaches the header without passing the escaper"
+					}
+				}
+			} else if isSp && eng.CalleeIs(sp, "mime.FormatMediaType") {
+				okFmt, okEsc = true, true
+			}
+			c.Ob("CODEC-filename", fmt.Sprintf("%s content-disposition#%d", eng.FuncName(fn), n), okFmt && okEsc, call.Pos(),
+				"the file name is sent as a MIME quoted string with exactly the escapes the receiver undoes (backslash and double quote)"+ifs(why != "", ": "+why)+ifs(!okFmt, ": unexpected format"))
+		}
+		if n == 0 {
+			c.Undecided("CODEC-filename", eng.FuncName(fn), fn.Pos(), "Content-Disposition header not found")
+		}
+	}
 	P := c.P
 	rw := c.NeedFunc("weed/topology", "ReplicatedWrite")
 	if rw != nil {
@@ -571,4 +617,43 @@ func answersError(c *eng.Ctx, fn *ssa.Function, e ssa.Value, from eng.Loc, depth
 		return false, "a path returns without handing the error to the function that answers it"
 	}
 	return true, ""
+}
+
+// replacerPairs renders the constant arguments strings.NewReplacer was called with for the package-level replacer v is
+// loaded from, joined by "|" ("" when it cannot be determined).
+func replacerPairs(P *eng.Prog, v ssa.Value) string {
+	u, ok := eng.Unwrap(v).(*ssa.UnOp)
+	if !ok {
+		return ""
+	}
+	g, ok := u.X.(*ssa.Global)
+	if !ok || g.Pkg == nil {
+		return ""
+	}
+	initFn := g.Pkg.Func("init")
+	if initFn == nil {
+		return ""
+	}
+	for _, b := range initFn.Blocks {
+		for _, in := range b.Instrs {
+			st, ok := in.(*ssa.Store)
+			if !ok || st.Addr != ssa.Value(g) {
+				continue
+			}
+			call, ok := st.Val.(*ssa.Call)
+			if !ok || !eng.CalleeIs(call, "strings.NewReplacer") {
+				return ""
+			}
+			var parts []string
+			for _, a := range eng.VarargValues(call.Call.Args[0]) {
+				k, isK := eng.ConstString(a)
+				if !isK {
+					return ""
+				}
+				parts = append(parts, k)
+			}
+			return strings.Join(parts, "|")
+		}
+	}
+	return ""
 }
